@@ -254,6 +254,13 @@ pub fn run(cfg: &Cfg, rep: &mut Report) {
             }
         }
     }
+    // (b3) numbers at every integer width in hex and decimal escapes, and group arrangements
+    for ps in integer_width_patterns().into_iter().chain(group_arrangement_patterns()) {
+        let p = engine::to_cps(&ps);
+        for m in &ms {
+            ctx.one(&p, *m, "targeted");
+        }
+    }
     // (c) printed structured patterns and their single-edit neighbours
     let n = cfg.scaled(if cfg.quick() { 12_000 } else { 400_000 });
     let mut rng = Rng::new(cfg.seed ^ 0xC08);
